@@ -4,12 +4,16 @@
 Confirms a proposed seeded change independently in a fresh scratch worktree of /repo:
   demo passes on the original; with the patch the crate builds, the existing suite passes, the demo fails.
 On success copies it to /verif/seeded/<name>/ and records what was run in meta.json."""
-import json, os, subprocess, sys, shutil
+import json, os, re, subprocess, sys, shutil
 ROOT = os.path.dirname(os.path.dirname(os.path.abspath(__file__)))
 src, name = os.path.abspath(sys.argv[1]), sys.argv[2]
 wt = "/root/scratch/seedverify_%d" % os.getpid()
+DEMO_ENV = {}
 def run(cmd, cwd):
-    r = subprocess.run(cmd, cwd=cwd, shell=True, stdout=subprocess.PIPE, stderr=subprocess.STDOUT, env=dict(os.environ, CARGO_NET_OFFLINE="true"))
+    env = dict(os.environ, CARGO_NET_OFFLINE="true")
+    if "--test demo" in cmd:
+        env.update(DEMO_ENV)
+    r = subprocess.run(cmd, cwd=cwd, shell=True, stdout=subprocess.PIPE, stderr=subprocess.STDOUT, env=env)
     return r.returncode, r.stdout.decode("utf-8", "replace")
 subprocess.run(["git", "-C", "/repo", "worktree", "add", "-q", "--detach", wt, "HEAD"], check=True)
 log = []
@@ -18,6 +22,10 @@ try:
     os.makedirs(os.path.join(wt, "tests"), exist_ok=True)
     shutil.copy(os.path.join(src, "demo.rs"), os.path.join(wt, "tests", "demo.rs"))
     demo_src = open(os.path.join(src, "demo.rs")).read()
+    mf = re.search(r'RUSTFLAGS="([^"]*)"', "\n".join(demo_src.split("\n")[:25]))
+    if mf:   # the demonstration needs a specific build configuration (e.g. a CPU without BMI2)
+        DEMO_ENV["RUSTFLAGS"] = mf.group(1)
+        log.append("demo built with RUSTFLAGS=" + mf.group(1))
     rel = "--release" if "--release" in demo_src.split("\n\n")[0] or "--release" in "\n".join(demo_src.split("\n")[:15]) else ""
     flags = [""] + ([rel] if rel else [])
     def demo():
